@@ -297,6 +297,7 @@ type c04Cfg struct {
 	asyncMax  int   // MaxAsyncConcurrency (0 = unlimited)
 	adsDepth  int64 // AdsDepthLimit (0 = unlimited)
 	trusted   bool  // the subscriber's link system has TrustedStorage set
+	noAddrs   bool  // the faulty attempt names the (unknown) publisher without any address
 }
 
 func (c c04Cfg) String() string {
@@ -370,6 +371,9 @@ func c04Plan(r *simkit.Run, c Cfg, w *World) (c04Cfg, []faultPlan) {
 				cfg.adsDepth = int64(tp.Range(1, int(cfg.seg), "adsDepthLE"))
 			}
 		}
+		if tp.Chance(1, 10, "noAddrs") {
+			cfg.noAddrs, cfg.preSynced = true, 0
+		}
 		np := 1 + tp.Choose(2, "nfaults")
 		if tp.Chance(1, 6, "manyfaults") {
 			np = tp.Range(3, 5, "nfaultsMany")
@@ -390,6 +394,10 @@ type planFunc func(r *simkit.Run, c Cfg, w *World) (c04Cfg, []faultPlan)
 func runFaultSync(r *simkit.Run, c Cfg, mode string, planner planFunc) {
 	w := NewWorld(r)
 	r.EnableSites(map[string]bool{})
+	if mode == "c02" && c.Case < 0 && r.Tape.Chance(1, 12, "longDigest") {
+		c02LongDigest(r, w)
+		return
+	}
 
 	cfg, plans := planner(r, c, w)
 	po := PubOpts{Name: "P1", NAds: cfg.preSynced, Discovery: cfg.discovery, Hosts: []string{"10.0.0.1:3104"}, Proto: cfg.proto}
@@ -439,17 +447,25 @@ func runFaultSync(r *simkit.Run, c Cfg, mode string, planner planFunc) {
 
 	trigger := func(head cid.Cid, explicit bool, label string) *attempt {
 		a := &attempt{}
+		target := pub.AddrInfo()
+		if cfg.noAddrs && label == "faulty" {
+			// the caller, or the announcement, names a publisher that the
+			// subscriber has never synced and gives no address for it: the
+			// sync fails (and an announce-triggered one says so)
+			target.Addrs = nil
+			r.Fault("no-address")
+		}
 
 		sw.ctx, sw.cancel = context.WithCancel(context.Background())
 		if explicit {
 			r.Go(label, func(t *simkit.Task) {
-				a.got, a.err = sub.Sub.SyncAdChain(sw.ctx, pub.AddrInfo())
+				a.got, a.err = sub.Sub.SyncAdChain(sw.ctx, target)
 				a.done = true
 				t.Logf("SyncAdChain -> %s err=%v", w.CidName(a.got), a.err != nil)
 			})
 		} else {
 			r.Go(label, func(t *simkit.Task) {
-				err := sub.Sub.Announce(sw.ctx, head, pub.AddrInfo())
+				err := sub.Sub.Announce(sw.ctx, head, target)
 				t.Logf("Announce(%s) -> %v", w.CidName(head), err)
 			})
 		}
